@@ -65,7 +65,7 @@ fn sign_event(t: &mut Tracer, sess: &str, key: &Key, uid: &str, g: Option<&Gen>,
 
 fn verify_event(t: &mut Tracer, sess: &str, prop: &str, pk65: &[u8], uid: &str, g: Option<&Gen>, msg: &[u8], sig: &[u8], fault: &str) {
     let out = match Sm2PublicKey::new(pk65) {
-        Ok(pk) => { let u = leak(uid); guard(|| pk.verify(Some(u), msg, sig)) }
+        Ok(pk) => { let u = leak(uid); let (pm, ps) = (crate::gen::realign(msg), crate::gen::realign(sig)); guard(|| pk.verify(Some(u), pm.get(), ps.get())) }
         Err(e) => Outcome::Err(format!("pk: {:?}", e)),
     };
     let mut f = json!({"prop": prop, "pk": bytes(pk65), "uid": bytes(uid.as_bytes()), "sig": bytes(sig), "fault": fault,
@@ -150,10 +150,10 @@ pub fn drive_sign(t: &mut Tracer, tier: &str, seed: u64, plan: Option<String>) {
     }
     // (c3) conforming signatures constructed by the specification at the digest level (t = r + s with all-zero 64-bit limbs ...): must be accepted
     for v in read_plan(&plan) {
-        if v["kind"] == "forge" && v["valid"] == true && v["fault"] == "sparse-t" {
+        if v["kind"] == "forge" && v["valid"] == true && (v["fault"] == "sparse-t" || v["fault"] == "edge-valid") {
             let (r, s) = (arr(&v["r"]), arr(&v["s"]));
             if r[0] != 0 || s[0] != 0 { continue; }
-            verify_digest_event(t, &sess(), &arr(&v["pk"]), &arr(&v["e"]), &[r[1..].to_vec(), s[1..].to_vec()].concat(), "sparse-t");
+            verify_digest_event(t, &sess(), &arr(&v["pk"]), &arr(&v["e"]), &[r[1..].to_vec(), s[1..].to_vec()].concat(), v["fault"].as_str().unwrap());
         }
     }
     // (d) OpenSSL-made signatures (committed corpus)
@@ -232,6 +232,17 @@ pub fn drive_verify(t: &mut Tracer, tier: &str, seed: u64, plan: Option<String>)
         verify_event(t, &sess(), "C04", &key.pk65, &uid, None, &m3, &sig, "altered-msg");
         verify_event(t, &sess(), "C04", &key.pk65, &uid, None, &[m.clone(), vec![0]].concat(), &sig, "altered-msg");
         verify_event(t, &sess(), "C04", &key.pk65, &format!("{}x", uid), Some(&g), &m, &sig, "altered-id");
+        // the empty identity and the default identity are DIFFERENT identities (ENTL = 0 vs 128 bits)
+        if uid == "1234567812345678" { verify_event(t, &sess(), "C04", &key.pk65, "", Some(&g), &m, &sig, "altered-id"); }
+        {
+            let (sk2, m2) = (key.sk.clone(), m.clone());
+            if let Outcome::Ok(sig_e) = guard_timed(20, move || sk2.sign(Some(""), &m2)) {
+                verify_event(t, &sess(), "C04", &key.pk65, "1234567812345678", Some(&g), &m, &sig_e, "altered-id");
+                let (pk2, m3, se) = (key.sk.public_key.clone(), m.clone(), sig_e.clone());
+                let o = guard(|| pk2.verify(None, &m3, &se));
+                t.emit(&sess(), "sm2.verify", { let mut f = json!({"prop": "C04", "pk": bytes(&key.pk65), "uid": bytes(b"1234567812345678"), "sig": bytes(&sig_e), "fault": "altered-id", "outcome": o.name(), "detail": o.detail()}); msg_fields(&mut f, Some(&g), &m); f });
+            }
+        }
         let mut d2 = rng.bytes(32); d2[0] &= 0x7f;
         if let Some(k2) = key_from(&d2) { verify_event(t, &sess(), "C04", &k2.pk65, &uid, Some(&g), &m, &sig, "altered-key"); }
         // random pairs
@@ -273,7 +284,7 @@ fn encrypt_event(t: &mut Tracer, sess: &str, key: &Key, g: Option<&Gen>, msg: &[
 
 fn decrypt_event(t: &mut Tracer, sess: &str, prop: &str, d: &[u8], ct: &[u8], order: &str, compressed: bool, fault: &str) {
     let out = match guard(|| Sm2PrivateKey::new(d)) {
-        Outcome::Ok(sk) => { let (c, o) = (ct.to_vec(), order.to_string()); guard_timed(20, move || sk.decrypt(&c, compressed, model_of(&o))) }
+        Outcome::Ok(sk) => { let (c, o) = (crate::gen::realign(ct), order.to_string()); guard_timed(20, move || sk.decrypt(c.get(), compressed, model_of(&o))) }
         Outcome::Err(e) => Outcome::Err(e), Outcome::Panic(p) => Outcome::Panic(p), Outcome::Timeout => Outcome::Timeout,
     };
     let o = out.ok().cloned().unwrap_or_default();
